@@ -216,6 +216,21 @@ func run(alpha []opDef, keys []string, c Case) (vs []viol, outcome string, nontr
 		}
 		preps = append(preps, prepared{ctx, lookups(f, keys) + listings(f)})
 	}
+	// results are handed to the proposer without a copy: what Update returned for entry i must still
+	// read the same after later Update calls
+	type heldResult struct {
+		res  dbsm.Result
+		then string
+		step int
+	}
+	var held []heldResult
+	defer func() {
+		for _, h := range held {
+			if now := fmt.Sprintf("%d %s", h.res.Value, h.res.Data); now != h.then {
+				vs = append(vs, viol{"result-changed-after-later-updates", fmt.Sprintf("step %d returned %s; after the later updates of the sequence the same result reads %s", h.step, h.then, now)})
+			}
+		}
+	}()
 	for i, oi := range c.Seq {
 		prepare()
 		o := alpha[oi]
@@ -234,6 +249,7 @@ func run(alpha []opDef, keys []string, c Case) (vs []viol, outcome string, nontr
 			return []viol{{"update-error", err.Error()}}, "", true
 		}
 		got := fmt.Sprintf("%d %s", out[0].Result.Value, out[0].Result.Data)
+		held = append(held, heldResult{out[0].Result, got, i})
 		if got != wantRes[i] {
 			sig := "result-mismatch/" + o.Op
 			if existed {
